@@ -128,6 +128,18 @@ Theorem C19_filter_spec : forall (A : Type) (p : A -> bool) xs,
 Proof. exact filter_spec. Qed.
 Print Assumptions C19_filter_spec.
 
+(* std.list's semigroup append (what `<>` resolves to at List) is list concatenation, and filter
+   keeps exactly the members satisfying the predicate *)
+Theorem C19_list_append_app : forall (A : Type) (xs ys : list A),
+  ListGen.append xs ys = xs ++ ys.
+Proof. exact append_app. Qed.
+Print Assumptions C19_list_append_app.
+
+Theorem C19_filter_In : forall (A : Type) (p : A -> bool) x xs,
+  In x (ListGen.filter p xs) <-> In x xs /\ p x = true.
+Proof. exact filter_In. Qed.
+Print Assumptions C19_filter_In.
+
 (* the instance run by the correspondence harness *)
 Theorem C19_Zcompare_ord_ok : ord_ok Z.compare.
 Proof. exact Zcompare_ord_ok. Qed.
